@@ -16,9 +16,79 @@ package parser
 //@   ensures result0 == refActType(s, a) && result1 == refActParam(s, a)
 //@   ensures (result2 != nil) == (refActType(s, a) == lr.ERROR)
 //@   ensures result0 == lr.SHIFT ==> 0 <= result1 && result1 <= refMaxState()
-//@   ensures result0 == lr.REDUCE ==> 0 <= result1 && result1 < prodCount()
+//@   ensures result0 == lr.REDUCE ==> 0 <= result1 && result1 < prodCount() && prodLen(result1) <= distS(s)
+//@   ensures result0 == lr.SHIFT ==> distS(result1) <= distS(s) + 1
 
 //@ func GOTO(s int, A grammar.NonTerminal) int
 //@   split s 0 56
 //@   ensures result == refGoto(s, A)
-//@   ensures result >= -1 && result <= refMaxState()
+//@   ensures result >= -1 && result <= refMaxState() && distS(result) <= distS(s) + 1
+
+// ---- the driver ----
+//
+// The token source behind p.L is abstract: it delivers p.L.toks[0..) and then p.L.endErr (io.EOF at a
+// regular end of input). look(p, i) is the i-th look-ahead the driver sees: a delivered token, or the
+// end marker once the source is exhausted.
+
+//@ import "github.com/moorara/algo/lexer"
+//@ import "github.com/moorara/algo/parser"
+
+//@ spec func sourceOK(p *Parser) bool = p != nil && p.L != nil && 0 <= p.L.k && p.L.endErr != nil
+
+//@ func (p *Parser) nextToken() (lexer.Token, error)
+//@   requires sourceOK(p)
+//@   modifies p.L.k
+//@   ensures sourceOK(p)
+//@   ensures old(p.L.k) < len(p.L.toks) ==> result1 == nil && result0 == p.L.toks[old(p.L.k)] && p.L.k == old(p.L.k) + 1
+//@   ensures old(p.L.k) >= len(p.L.toks) ==> p.L.k == old(p.L.k)
+//@   ensures old(p.L.k) >= len(p.L.toks) && errors.Is(p.L.endErr, io.EOF)
+//@     ==> result1 == nil && result0.Terminal == grammar.Endmarker && result0.Lexeme == ""
+//@   ensures old(p.L.k) >= len(p.L.toks) && !errors.Is(p.L.endErr, io.EOF) ==> result1 == p.L.endErr
+
+//@ spec func tablesOK() bool = len(productions) == prodCount()
+//@   && (forall i int :: {productions[i]} 0 <= i && i < prodCount() ==>
+//@         productions[i] != nil && len(productions[i].Body) == prodLen(i) && productions[i].Head == prodHead(i))
+//@ spec func sameSource(p *Parser, L lexer.Lexer, toks []lexer.Token, e error) bool =
+//@   sourceOK(p) && p.L == L && p.L.toks == toks && p.L.endErr == e
+
+//@ func (p *Parser) Parse(tokenF parser.TokenFunc, prodF ProductionFunc) error
+//@   requires sourceOK(p) && tablesOK()
+//@   requires forall j int :: {p.L.toks[j]} 0 <= j && j < len(p.L.toks) ==> p.L.toks[j].Terminal != grammar.Endmarker
+//@   modifies heap
+//@   callback tokenF requires refActType(athead(stack.seq)[len(athead(stack.seq))-1], athead(token).Terminal) == lr.SHIFT
+//@   callback tokenF requires len(stack.seq) == len(athead(stack.seq)) + 1 && p.L.k == athead(p.L.k)
+//@   callback tokenF requires arg0 != nil && arg0.Terminal == athead(token).Terminal && arg0.Lexeme == athead(token).Lexeme && arg0.Pos == athead(token).Pos
+//@   callback tokenF ensures tablesOK() && sameSource(p, old(p.L), old(p.L.toks), old(p.L.endErr)) && p.L.k == old(p.L.k)
+//@   callback prodF requires refActType(athead(stack.seq)[len(athead(stack.seq))-1], athead(token).Terminal) == lr.REDUCE
+//@   callback prodF requires arg0 == refActParam(athead(stack.seq)[len(athead(stack.seq))-1], athead(token).Terminal)
+//@   callback prodF requires len(stack.seq) == len(athead(stack.seq)) - prodLen(arg0) + 1 && p.L.k == athead(p.L.k)
+//@   callback prodF ensures tablesOK() && sameSource(p, old(p.L), old(p.L.toks), old(p.L.endErr)) && p.L.k == old(p.L.k)
+//@   callback prodF ensures token == old(token)
+//@   loop[0] invariant tablesOK() && sameSource(p, old(p.L), old(p.L.toks), old(p.L.endErr))
+//@   loop[0] invariant len(stack.seq) >= 1 && stack.seq[0] == 0
+//@   loop[0] invariant lasterr(tokenF) == nil && lasterr(prodF) == nil
+//@   loop[0] invariant forall i int :: {stack.seq[i]} 0 <= i && i < len(stack.seq) ==> distS(stack.seq[i]) <= i
+//@   loop[0] invariant token.Terminal != grammar.Endmarker ==> 1 <= p.L.k && p.L.k <= len(p.L.toks) && token == p.L.toks[p.L.k - 1]
+//@   loop[0] invariant token.Terminal == grammar.Endmarker ==> p.L.k >= len(p.L.toks)
+//@   loop[0] step refActType(athead(stack.seq)[len(athead(stack.seq))-1], athead(token).Terminal) == lr.SHIFT ==> len(stack.seq) == len(athead(stack.seq)) + 1 && stack.seq[len(stack.seq)-1] == refActParam(athead(stack.seq)[len(athead(stack.seq))-1], athead(token).Terminal)
+//@   loop[0] step refActType(athead(stack.seq)[len(athead(stack.seq))-1], athead(token).Terminal) == lr.SHIFT ==> (forall i int :: {stack.seq[i]} 0 <= i && i < len(athead(stack.seq)) ==> stack.seq[i] == athead(stack.seq)[i])
+//@   loop[0] step refActType(athead(stack.seq)[len(athead(stack.seq))-1], athead(token).Terminal) == lr.SHIFT ==> (tokenF != nil ==> ncalls(tokenF) == athead(ncalls(tokenF)) + 1 && lasterr(tokenF) == nil)
+//@   loop[0] step refActType(athead(stack.seq)[len(athead(stack.seq))-1], athead(token).Terminal) == lr.SHIFT ==> ncalls(prodF) == athead(ncalls(prodF))
+//@   loop[0] step refActType(athead(stack.seq)[len(athead(stack.seq))-1], athead(token).Terminal) == lr.SHIFT ==> (athead(p.L.k) < len(p.L.toks) ==> p.L.k == athead(p.L.k) + 1)
+//@   loop[0] step refActType(athead(stack.seq)[len(athead(stack.seq))-1], athead(token).Terminal) == lr.REDUCE ==> len(stack.seq) == len(athead(stack.seq)) - prodLen(refActParam(athead(stack.seq)[len(athead(stack.seq))-1], athead(token).Terminal)) + 1
+//@   loop[0] step refActType(athead(stack.seq)[len(athead(stack.seq))-1], athead(token).Terminal) == lr.REDUCE ==> stack.seq[len(stack.seq)-1] == refGoto(stack.seq[len(stack.seq)-2], prodHead(refActParam(athead(stack.seq)[len(athead(stack.seq))-1], athead(token).Terminal)))
+//@   loop[0] step refActType(athead(stack.seq)[len(athead(stack.seq))-1], athead(token).Terminal) == lr.REDUCE ==> (forall i int :: {stack.seq[i]} 0 <= i && i < len(stack.seq) - 1 ==> stack.seq[i] == athead(stack.seq)[i])
+//@   loop[0] step refActType(athead(stack.seq)[len(athead(stack.seq))-1], athead(token).Terminal) == lr.REDUCE ==> (prodF != nil ==> ncalls(prodF) == athead(ncalls(prodF)) + 1 && lasterr(prodF) == nil)
+//@   loop[0] step refActType(athead(stack.seq)[len(athead(stack.seq))-1], athead(token).Terminal) == lr.REDUCE ==> ncalls(tokenF) == athead(ncalls(tokenF))
+//@   loop[0] step refActType(athead(stack.seq)[len(athead(stack.seq))-1], athead(token).Terminal) == lr.REDUCE ==> token == athead(token) && p.L.k == athead(p.L.k)
+//@   loop[0] step refActType(athead(stack.seq)[len(athead(stack.seq))-1], athead(token).Terminal) == lr.SHIFT || refActType(athead(stack.seq)[len(athead(stack.seq))-1], athead(token).Terminal) == lr.REDUCE
+//@   loop[1] invariant len(stack.seq) == len(before(stack.seq)) - __i1 && __i1 <= len(β)
+//@   loop[1] invariant forall j int :: {stack.seq[j]} 0 <= j && j < len(stack.seq) ==> stack.seq[j] == before(stack.seq)[j]
+//@   ensures lasterr(tokenF) != nil ==> result != nil && typeis(result, "*parser.ParseError") && unbox(result, "*parser.ParseError").Cause == lasterr(tokenF)
+//@   ensures lasterr(prodF) != nil ==> result != nil && typeis(result, "*parser.ParseError") && unbox(result, "*parser.ParseError").Cause == lasterr(prodF)
+//@   ensures result == nil ==> refActType(stack.seq[len(stack.seq)-1], token.Terminal) == lr.ACCEPT
+//@   ensures errors.Is(p.L.endErr, io.EOF) && lasterr(tokenF) == nil && lasterr(prodF) == nil && result != nil
+//@     ==> refActType(stack.seq[len(stack.seq)-1], token.Terminal) == lr.ERROR
+//@         && typeis(result, "*parser.ParseError") && unbox(result, "*parser.ParseError").Pos == token.Pos
+//@         && unbox(result, "*parser.ParseError").Cause != nil
+//@         && (token.Terminal != grammar.Endmarker ==> 1 <= p.L.k && p.L.k <= len(p.L.toks) && token == p.L.toks[p.L.k - 1])
